@@ -504,6 +504,8 @@ impl<'a> Gen<'a> {
                     add(format!(" {n}"));
                     add(format!("{n} "));
                     add(format!("{n}x"));
+                    // one inserted wide character: one edit, three bytes
+                    add(format!("{n}日"));
                     if n.len() > 1 {
                         add(n[..n.len() - 1].to_string());
                     }
